@@ -155,8 +155,8 @@ pub fn all() -> Vec<Prop> {
             id: "C13",
             engine_name: "E4-pipeline",
             engine: crate::e4_pipeline::run_c13,
-            quick_runs: 12_000,
-            thorough_runs: 300_000,
+            quick_runs: 3_000,
+            thorough_runs: 120_000,
             rule: crate::e4_pipeline::RULE_C13,
             real: &[
                 "minidump, minidump-common, minidump-unwind, minidump-processor, breakpad-symbols built from /repo's working tree, release + overflow-checks",
@@ -188,8 +188,8 @@ pub fn all() -> Vec<Prop> {
             id: "C03",
             engine_name: "E4-pipeline",
             engine: crate::e4_pipeline::run_c03,
-            quick_runs: 30_000,
-            thorough_runs: 800_000,
+            quick_runs: 8_000,
+            thorough_runs: 300_000,
             rule: crate::e4_pipeline::RULE_C03,
             real: &[
                 "minidump, minidump-common, minidump-unwind, minidump-processor, breakpad-symbols built from /repo's working tree, release + overflow-checks",
